@@ -95,6 +95,32 @@ STRENGTHENED = {
     "C20-w5m2": "missed at first; the pool's `UU` link class now has a constructor that REQUIRES its two ends (as documented: `lnktype(v1, v2)`)",
     "C18-w5m2": "missed at first; C18 now also runs histories with an ALIAS class (a singleton class whose `__new__` forwards to another singleton class) "
                 "and judges the statement for the forwarded-to class",
+    "C01-w6m2": "missed at first (law sets with an edge_whitelist never met link creation); `lawset 2` is now among the law operations of every history",
+    "C02-w6m2": "missed at first; histories now contain `reload` (the caller pickles / deep-copies / nrpickles the whole graph and goes on with the copy; model: World.copy, EG.Copy)",
+    "C03-w6m1": "missed at first; `uf=k`: the `universes=` iterable of a constructor raises after k items (model: Op.rejected .fault — raises, nothing touched)",
+    "C03-w6m2": "missed at first; a vertex whose number of links crosses 512 (thorough: 1024) several times, links detached while small re-attached when large",
+    "C05-w6m1": "missed at first; universe-restricted traversals and searches are in every audit, universes start populated, membership changes from both sides among the cache histories",
+    "C05-w6m2": "missed at first; filters that are `functools.partial` objects of one function with equal bound arguments (True / 1)",
+    "C06-w6m1": "missed at first; `ghold`: a traversal generator is requested, the universe changes, then it is consumed (and compared with the list form at that moment)",
+    "C07-w6m1": "missed at first; a diamond hanging 850 levels down the deep chain",
+    "C08-w6m1": "missed at first; value class 8 = `math.nan`, ONE object stored on vertices and sought (model: never equal, `hasAttrVal`)",
+    "C08-w6m2": "missed at first; attribute number 3 has a dotted name (`a0.real`)",
+    "C09-w6m2": "missed at first; links of every class carry user data fields named `directed`, `kind`, … in the query worlds",
+    "C10-w6m1": "missed at first; probe with user subclasses adding `__slots__` (state = (dict, slots)), protocols 2-5, pickle and dill",
+    "C10-w6m2": "missed at first; same probe: the graph is dumped before anything has read a uid, uids compared afterwards",
+    "C11-w6m2": "missed at first; every other builder call is made from a worker thread",
+    "C12-w6m1": "missed at first; exchange rows `neighbors() while an ibft / idft_recursive generator is suspended` (table now 112 rows)",
+    "C12-w6m2": "missed at first; exchange rows for `universes` of law sets and links",
+    "C13-w6m1": "missed at first; probe: 1300 reads with distinct filters, caching on and off, public state compared",
+    "C13-w6m2": "missed at first; probe: nrpickler.dumps of a graph carrying a generator-valued attribute must leave the graph alone",
+    "C15-w6m2": "missed at first; links carry user data fields named `directed` in the render worlds",
+    "C16-w6m1": "missed at first; the `dup` render function returns objects whose str() differs from their repr()",
+    "C16-w6m2": "missed at first; render kind `num`: ONE callable as rfunc and sort key, returning numbers whose text order differs",
+    "C18-w6m1": "missed at first; the constructors of two pool classes fail with an exception that is not an `Exception`",
+    "C18-w6m2": "missed at first; the alias-class histories also DEFINE a sibling class with the same qualified name in mid-history",
+    "C19-w6m1": "missed at first; the laws-only histories run with warnings turned into errors every other time, assignments from the universe side included",
+    "C20-w6m1": "missed at first; a fresh interpreter whose first use of the library is the seeded call runs it twice per seed",
+    "C20-w6m2": "missed at first; counts 1001 / 1500 / 2049 judged directly",
 }
 _EQ = ("needs graph objects (vertices / law sets) that override `__eq__`/`__hash__` so that distinct objects compare equal; the unchanged "
        "code itself uses == membership throughout, so the identity reading of the properties presupposes default equality (§6, §11.1)")
@@ -103,6 +129,9 @@ _FX = ("needs a filter callback that MUTATES the graph while it is being consult
 _OV = ("needs a user subclass that OVERRIDES a structural method of the library (`add_to_link`, `add_vertex`, `vertices`) so that it refuses "
        "or raises, or an ill-typed argument: the model and the statements assume the library's own methods and well-typed arguments (§6)")
 MISSED_NOTE = {
+    "C07-w6m2": "out of reach of the quick tier: needs a pending DFS stack above 131072 entries (the complete graph on 400 vertices in shuffled order, 80 000 links)",
+    "C14-w6m2": "known gap: needs two vertex classes with the same `__name__` (the pool's classes are distinctly named; the model keys stereotypes by class)",
+    "C17-w6m2": "known gap: needs a constructor keyword named like a parameter that the change itself introduces (`missing_ok`)",
     "C05-w5m2": "known gap: needs a producer and a consumer process whose numbers of flag-off invalidations coincide exactly",
     "C07-w5m2": "missed by the QUICK tier: needs a pending DFS stack above 65536 entries; the THOROUGH tier of C06 / C07 now builds the complete "
                 "graph on 262 vertices (the model needs 95 s for it) on which the changed code lists a different order (verified by hand)",
